@@ -8,6 +8,10 @@
 //   N:i:mask          uriNormalizeSyntaxEx(i, mask) in place
 //   O:i               uriMakeOwner(i)
 //   S:i  E:i:j  M:i   observers: toString, equals, maskRequired
+//   W:i               new = parse(toString(i)): the library's own output is the next call's input (own buffer)
+//   D:i               uriFreeUriMembers(i) twice (only when nothing borrows from i); i is dead afterwards
+// Every output structure is handed to the library filled with 0xA5 bytes: a member the producing call forgets to set
+// stays visible (a zeroed output would hide it).
 #pragma once
 #include <memory>
 #include <set>
@@ -103,8 +107,10 @@ inline std::vector<Op> g_history(Tape &t, int flavor = SEG_ANY, bool withObserve
   int steps = t.range(1, maxSteps);
   for (int s = 0; s < steps; s++) {
     Op o;
-    int k = t.weighted({3, 3, 4, 2, 1, withObservers ? 3 : 0});
+    int k = t.weighted({6, 6, 8, 4, 2, withObservers ? 6 : 0, 3, 1});
     switch (k) {
+      case 6: o.kind = 'W'; o.i = (int)t.below(pool); pool++; break;
+      case 7: o.kind = 'D'; o.i = (int)t.below(pool); break;
       case 0: o.kind = 'R'; o.i = (int)t.below(pool); o.j = (int)t.below(pool); o.arg = (int)t.below(2); pool++; break;
       case 1: o.kind = 'B'; o.i = (int)t.below(pool); o.j = (int)t.below(pool); o.arg = (int)t.below(2); pool++; break;
       case 2: o.kind = 'N'; o.i = (int)t.below(pool); o.arg = t.chance(1, 2) ? 63 : (t.chance(1, 2) ? 8 : (int)t.below(64)); break;
@@ -164,7 +170,12 @@ template <class A> struct World {
       if (k != i && at(k).live && at(k).borrows.count(i)) return true;
     return false;
   }
-  int newobj() { objs.emplace_back(new Obj()); objs.back()->mm = defaultMm; return size() - 1; }
+  int newobj() {
+    objs.emplace_back(new Obj());
+    objs.back()->mm = defaultMm;
+    memset(&objs.back()->uri, 0xA5, sizeof objs.back()->uri);  // every producing entry point must initialise its output itself
+    return size() - 1;
+  }
 
   struct Res { int rc = 0; int produced = -1; bool skipped = false; };
 
@@ -237,6 +248,26 @@ template <class A> struct World {
     r.produced = i;
     return r;
   }
+  // the text the library writes for i is parsed as a new, independent object
+  Res textround(int i) {
+    Res r;
+    if (!at(i).valid) { r.skipped = true; return r; }
+    std::string t;
+    bool ok;
+    { Bracket br(this, &at(i).uri, nullptr, "uriToString/uriToStringCharsRequired"); ok = to_string<A>(at(i).uri, &t); }
+    if (!ok) { r.skipped = true; return r; }
+    return parse(t);
+  }
+  Res dispose(int i) {
+    Res r;
+    Obj &o = at(i);
+    if (!o.live || borrowed_by_others(i)) { r.skipped = true; return r; }
+    r.rc = A::FreeUriMembersMm(&o.uri, o.mm);
+    int again = A::FreeUriMembersMm(&o.uri, o.mm);  // "freeing URI members repeatedly is harmless"
+    if (r.rc == 0) r.rc = again;
+    o.live = false; o.valid = false; o.borrows.clear();
+    return r;
+  }
   Res exec(const Op &op) {
     int n = size();
     auto ix = [&](int v) { return n ? ((v % n) + n) % n : 0; };
@@ -246,6 +277,8 @@ template <class A> struct World {
       case 'B': if (!n) break; return removebase(ix(op.i), ix(op.j), op.arg & 1);
       case 'N': if (!n) break; return normalize(ix(op.i), (unsigned)op.arg);
       case 'O': if (!n) break; return makeowner(ix(op.i));
+      case 'W': if (!n) break; return textround(ix(op.i));
+      case 'D': if (!n) break; return dispose(ix(op.i));
       case 'S': if (!n || !at(ix(op.i)).valid) break; { Bracket br(this, &at(ix(op.i)).uri, nullptr, "uriToString/uriToStringCharsRequired"); std::string t; to_string<A>(at(ix(op.i)).uri, &t); } break;
       case 'E': if (!n || !at(ix(op.i)).valid || !at(ix(op.j)).valid) break; { Bracket br(this, &at(ix(op.i)).uri, &at(ix(op.j)).uri, "uriEqualsUri"); A::EqualsUri(&at(ix(op.i)).uri, &at(ix(op.j)).uri); } break;
       case 'M': if (!n || !at(ix(op.i)).valid) break; { Bracket br(this, &at(ix(op.i)).uri, nullptr, "uriNormalizeSyntaxMaskRequired(Ex)"); unsigned m = 0; A::NormalizeSyntaxMaskRequired(&at(ix(op.i)).uri); A::NormalizeSyntaxMaskRequiredEx(&at(ix(op.i)).uri, &m); } break;
